@@ -316,8 +316,10 @@ func enumerate(tier string, emit func(string)) {
 	}
 	// non-integer arguments of the integer directives ("the Aesthetic directive is used")
 	for _, d := range []string{"D", "B", "O", "X"} {
-		for _, o := range []string{`"abc"`, `#\a`, `sym`, `(1 "b")`, `nil`, `1/3`} {
-			emit(mkSpec("non-integer", "", "~"+d, o))
+		for _, o := range []string{`"abc"`, `#\a`, `sym`, `(1 "b")`, `nil`, `1/3`, `""`, `"abcdefgh"`, `"1234567"`, `longsymbolname`, `(1 2 3 4 5 6)`, `1.5`} {
+			for _, m := range []string{"", ":", "@", ":@"} {
+				emit(mkSpec("non-integer", "", "~"+m+d, o))
+			}
 		}
 	}
 	emit(mkSpec("non-integer", "", "~vD|~D", "4", "7", `#\c`))
